@@ -15,7 +15,7 @@ from mc.engine import Result, short_hash
 PROPERTY = "C19"
 PRESETS = ("covalent", "vdw", "vdw_covalent")
 # species pairs from both sides of the "has a tabulated vdW radius" line
-PAIRS = [(29, 61), (8, 84), (1, 6), (100, 86), (3, 17)]
+PAIRS = [(29, 61), (8, 84), (1, 2), (100, 86), (3, 17), (1, 6)]  # (1,2): more atoms than the largest atomic number
 SPACINGS = (2.6, 3.4)
 
 
@@ -116,6 +116,21 @@ def diff_case(at, preset, with_sbc):
     if not np.allclose(da.dist_matrix_radii_mic, da.dist_matrix_mic - rr, atol=1e-12):
         out.append(("distances_table", "get_distances(radii=%r) did not subtract the documented radii" % preset))
     tag = "dim=%s" % (a[0],)
+    if max(num) < len(num):
+        # "a custom per-atom array is used unchanged": strongly contrasting per-atom radii on a structure with more
+        # atoms than its largest atomic number, compared with the periodic bonding-graph reference model
+        from mc import geom
+
+        arr = np.array([0.35 if i % 2 == 0 else 1.25 for i in range(len(num))])
+        thr = 0.4
+        cell, pbc = np.array(at.get_cell()), tuple(bool(x) for x in at.get_pbc())
+        lo = geom.periodic_rank(at.get_positions(), cell, pbc, arr, thr, -1e-6)
+        hi = geom.periodic_rank(at.get_positions(), cell, pbc, arr, thr, 1e-6)
+        if lo == hi and (lo[0] > 1 or lo[1] == lo[2]):
+            want = None if lo[0] > 1 else lo[1]
+            got = g.get_dimensionality(at.copy(), thr, radii=arr.copy())
+            if got != want:
+                out.append(("custom_array", "get_dimensionality with the per-atom radii %s gives %r, the bonding graph with exactly these radii gives %r" % (arr.tolist(), got, want)))
     if with_sbc:
         ca = _clusters_key(SBC().get_clusters(at.copy(), radii=preset))
         cb = _clusters_key(SBC().get_clusters(at.copy(), radii=ref.copy()))
